@@ -179,7 +179,15 @@ def parse_race_reports(text, repo):
             tops.append({"what": sd["what"], "fn": top[0], "at": top[1]})
         if len(tops) == 2:
             own = [t["at"].startswith(repo.rstrip("/") + "/") for t in tops]
-            reports.append({"sides": tops, "gengine_both": all(own), "gengine_any": any(own),
+            # the engine writing a result map while the client that was handed it reads it: the map is
+            # gengine's own state until it is returned, and the caller's afterwards
+            handed = False
+            if any(own) and not all(own):
+                g = tops[0] if own[0] else tops[1]
+                c = tops[1] if own[0] else tops[0]
+                handed = (g["at"].startswith(repo.rstrip("/") + "/engine/") and "rite" in g["what"]
+                          and "/harness/" in c["at"] and "ead" in c["what"])
+            reports.append({"sides": tops, "gengine_both": all(own) or handed, "gengine_any": any(own),
                             "text": blk.strip()[:2500]})
     return reports
 
